@@ -172,4 +172,4 @@ def check(case, ev):
 
 
 def parts(tier):
-    return [Part("objective", strategy=lambda t: case_strategy(t), check=check, quick=(8, 150), thorough=(16, 1500))]
+    return [Part("objective", strategy=lambda t: case_strategy(t), check=check, quick=(8, 250), thorough=(16, 1500))]
